@@ -37,7 +37,12 @@ CLAIM = dict(
 THEOREMS = ["max_value_default", "inv_init", "inv_addField", "inv_call", "inv_assignFields", "reachable_inv",
             "assign_disjoint", "enabled_disjoint", "scope_unique", "wide_enough", "call_rejects_wide",
             "reject_explicit_overflow", "reject_explicit", "valuesFit_of_le_max", "readback", "mask_exact",
-            "mask_exact_tag", "orthogonal"]
+            "mask_exact_tag", "orthogonal",
+            # deepening round
+            "inv2_init", "reachable_inv2", "tree_structure", "tag_closed", "tag_closed_getField",
+            "all_fixed_after_assign", "getMask_ok_after_assign", "reachableI_reachable", "reachableI_instOK",
+            "values_fit", "instOKB_iff", "valuesFitB_iff", "readback_instance", "instances_differ_on_common",
+            "orthogonal_instances"]
 
 RULE = ("histories of 6-40 operations generated against the running implementation (mostly valid: names a-h, values 0-3 "
         "that open sibling scopes, lengths None/1-5, explicit positions incl. the top bit, tags, assign_fields in the middle "
@@ -399,6 +404,15 @@ def eval_runs(ctx, runs):
                     ask("orth", ri, (comp[a][0], comp[b][0]), op="orthogonal", key=comp[a][2], mask=comp[a][3],
                         key2=comp[b][2], mask2=comp[b][3])
         run.n_complete = len(comp)
+        # the instance invariant (values_fit, inst_ok) on every instance the history created, complete or not
+        if not run.dead:
+            seen_fv = set()
+            for i, b in enumerate(run.insts):
+                fvk = json.dumps(sorted(b.field_values.items()))
+                if fvk in seen_fv or len(seen_fv) >= 10:
+                    continue
+                seen_fv.add(fvk)
+                ask("inst", ri, i, op="instance", entries=final, fv=[[k, v] for k, v in b.field_values.items()])
 
     replies = ctx.lean(reqs)
     for (tag, ri, info), rep in zip(idx, replies):
@@ -447,6 +461,14 @@ def eval_runs(ctx, runs):
                               "(instance %d, tag %r)" % (i, t), case)
             if not rep["mask_exact"] or not rep["mask_is_locs"]:
                 ctx.violation("mask", "mask is not the union of the present fields' bits (instance %d, tag %r)" % (i, t), case)
+        elif tag == "inst":
+            if not rep["values_fit"]:
+                ctx.violation("value-too-wide", "instance %d holds a value that does not fit the length of its field" % info,
+                              case)
+            if not rep["inst_ok"]:
+                ctx.tag("instance-invariant-broken")
+                ctx.mismatch("c08.inst_ok", "instance %d holds a value above max_value / for a field not present in it"
+                             % info, case)
         elif tag == "orth":
             if rep is not True:
                 ctx.violation("not-orthogonal", "two different complete assignments (instances %d, %d) produce key/mask "
